@@ -98,11 +98,22 @@ def oracle_small(inst, obs, nmax, collect=None):
         return (f"shape of A {obs['shape']} does not match len(b) = {len(obs['b'])}, n = {n}", [], None)
     if n > nmax:
         return (None, None, None)
+    import numpy as np
     adm = {v: ac.admissible(snap, grid, v) for v in vm}
     X = ac.all_binary(n)
     mask = feasible_mask(obs, X)
+    # Both oracles below begin with the same necessary condition -- the number of selected moves that end at
+    # a customer equals the number of customers -- so vectors that miss it are infeasible for both and only
+    # the others need the Python evaluation.  (The filter is part of the oracles, not of the code under test.)
+    into_customer = np.array([1 if v[2] != 0 else 0 for v in vm], dtype=np.int64)
+    cand = (X @ into_customer) == ncust if n else np.ones(X.shape[0], dtype=bool)
+    wrong = np.flatnonzero(mask & ~cand)
+    if len(wrong):
+        x = [int(q) for q in X[wrong[0]]]
+        return (f"A x = b is True but {sum(q for q, v in zip(x, vm) if v[2] != 0)} selected moves end at a customer "
+                f"({ncust} customers): selected {[v for v, q in zip(vm, x) if q]}", [], x)
     feas = []
-    for k in range(X.shape[0]):
+    for k in np.flatnonzero(cand):
         x = [int(q) for q in X[k]]
         f = bool(mask[k])
         lf = local_form(vm, ncust, x)
@@ -182,39 +193,59 @@ def vrptw_optimum(snap):
     return solve(frozenset(custs))
 
 
-def enum_feasible(A, b, n, limit):
-    """All 0-1 solutions of A x = b by depth-first search with interval pruning (generic, exact)."""
+def enum_feasible(A, b, n, limit, order=None, budget=400000):
+    """All 0-1 solutions of A x = b by depth-first search with interval pruning (generic and exact; `order`
+    is only the branching order).  Returns None when more than `limit` solutions or `budget` nodes."""
     m = len(b)
-    cols = [[A[r][k] for r in range(m)] for k in range(n)]
+    order = list(order) if order is not None else list(range(n))
+    cols = [[(r, A[r][k]) for r in range(m) if A[r][k] != 0] for k in order]
     minrem = [[0] * m for _ in range(n + 1)]
     maxrem = [[0] * m for _ in range(n + 1)]
-    for k in range(n - 1, -1, -1):
-        for r in range(m):
-            minrem[k][r] = minrem[k + 1][r] + min(0, cols[k][r])
-            maxrem[k][r] = maxrem[k + 1][r] + max(0, cols[k][r])
+    for d in range(n - 1, -1, -1):
+        minrem[d] = list(minrem[d + 1])
+        maxrem[d] = list(maxrem[d + 1])
+        for r, v in cols[d]:
+            minrem[d][r] += min(0, v)
+            maxrem[d][r] += max(0, v)
+    for r in range(m):
+        if minrem[0][r] > b[r] or maxrem[0][r] < b[r]:
+            return []
     out = []
     x = [0] * n
     part = [0] * m
+    nodes = [0]
 
-    def rec(k):
-        if len(out) > limit:
+    def ok(d):
+        # only the rows touched by variable d-1 changed their interval
+        for r, _ in cols[d - 1]:
+            if part[r] + minrem[d][r] > b[r] or part[r] + maxrem[d][r] < b[r]:
+                return False
+        return True
+
+    def rec(d):
+        nodes[0] += 1
+        if nodes[0] > budget or len(out) > limit:
             return
-        for r in range(m):
-            if part[r] + minrem[k][r] > b[r] or part[r] + maxrem[k][r] < b[r]:
-                return
-        if k == n:
+        if d == n:
             out.append(list(x))
             return
-        rec(k + 1)
+        k = order[d]
+        if ok(d + 1):
+            rec(d + 1)
         x[k] = 1
-        for r in range(m):
-            part[r] += cols[k][r]
-        rec(k + 1)
-        for r in range(m):
-            part[r] -= cols[k][r]
+        for r, v in cols[d]:
+            part[r] += v
+        if ok(d + 1):
+            rec(d + 1)
+        for r, v in cols[d]:
+            part[r] -= v
         x[k] = 0
+    import sys
+    sys.setrecursionlimit(max(sys.getrecursionlimit(), n + 1000))
     rec(0)
-    return out if len(out) <= limit else None
+    if nodes[0] > budget or len(out) > limit:
+        return None
+    return out
 
 
 def gen_complete(rng):
@@ -248,7 +279,8 @@ def gen_complete(rng):
 def oracle_complete(inst, obs, limit=4000):
     """Feasibility and optimum of the arc model vs the reference VRPTW on a complete grid."""
     snap, grid, vm, n = obs["snap"], list(inst["grid"]), obs["vars"], obs["n"]
-    feas = enum_feasible(obs["A"], obs["b"], n, limit)
+    order = sorted(range(n), key=lambda k: (vm[k][1], vm[k][3]))      # by departure time: flow rows close early
+    feas = enum_feasible(obs["A"], obs["b"], n, limit, order)
     if feas is None:
         return "skipped", None
     ref = vrptw_optimum(snap)
@@ -312,8 +344,8 @@ def run(ctx):
     ctx.prove()
     rng = ctx.rng
     nmax = 14 if ctx.quick else 16
-    n_random = 110 if ctx.quick else 1500
-    n_complete = 25 if ctx.quick else 300
+    n_random = 260 if ctx.quick else 2500
+    n_complete = 100 if ctx.quick else 1200
     from props.c18_arc import special_instances
     insts = [dict(i) for i in special_instances()]
     # a merged pair of routes through the depot, and an instance with every kind of row
@@ -375,7 +407,7 @@ def run(ctx):
             dist["vectors_swept"] += 2 ** n
             dist["feasible_vectors"] += len(feas)
             dist["instances_with_feasible_vector"] += bool(feas)
-            for x in feas[:80]:
+            for x in feas[:300]:
                 res = ac.run_decode(obs["p"], x)
                 decs.append((x, res))
                 dist["decoded"] += 1
@@ -466,7 +498,9 @@ def run(ctx):
         if not err and not any(idx == canary for idx, _ in mism):
             ctx.tooling_failure("correspondence/canary", "a deliberately wrong case was not flagged by the Coq comparison")
         mism = [(i, t) for i, t in mism if i < canary]
-    for idx, tags in mism[:2]:
+    for idx, tags in mism[:1]:
+        if ctx.has_concrete():
+            break                         # one VIOLATION per breakage: a concrete failing input was reported
         inst, obs, decs = cases[idx]
         if fails(inst, nmax):
             continue                      # reported above with a failing input
